@@ -263,7 +263,7 @@ def write_evidence(pc, tier, seed, res, st_prep, obligations, discharged, violat
         "streams": res.streams,
         "operations": res.op_hist,
         "outcomes": res.outcome_hist,
-        "model_guard_tags_hit": dict(sorted(res.tag_hist.items(), key=lambda kv: -kv[1])[:40]),
+        "model_guard_tags_hit": dict(sorted(res.tag_hist.items(), key=lambda kv: -kv[1])),
         "known_findings_reproduced": res.known_printed,
         "prepare_wall_s": st_prep.get("wall_s", {}),
     }
